@@ -2,6 +2,7 @@ package keygen
 
 import (
 	"crypto/rand"
+	"errors"
 	"fmt"
 
 	"github.com/taurusgroup/multi-party-sig/internal/round"
@@ -18,6 +19,9 @@ const Rounds round.Number = 5
 
 func Start(info round.Info, pl *pool.Pool, c *config.Config) protocol.StartFunc {
 	return func(sessionID []byte) (_ round.Session, err error) {
+		if info.Group == nil {
+			return nil, errors.New("keygen: group is nil")
+		}
 		var helper *round.Helper
 		if c == nil {
 			helper, err = round.NewSession(info, sessionID, pl)
